@@ -248,8 +248,11 @@ def report(mod: Any, m: Merged, tier: str, seed: int, t0: float, write_evidence:
                 json.dump({'property': pid, 'tier': tier, 'seed': seed, 'key': key,
                            'detail': v['detail'], 'case': v['case'], 'count': len(vs)}, f, indent=1)
             replays.append(path)
-            lines.append('VIOLATION property=%s replay=%s' % (pid, path))
-            lines.append('  key=%s count=%d detail=%s' % (key, len(vs), json.dumps(v['detail'])[:600]))
+            if len(replays) <= 12:
+                lines.append('VIOLATION property=%s replay=%s' % (pid, path))
+                lines.append('  key=%s count=%d detail=%s' % (key, len(vs), json.dumps(v['detail'])[:240]))
+        if len(replays) > 12:
+            lines.append('  ... and %d more violation keys (all witnesses under %s)' % (len(replays) - 12, rdir))
     for key, n in sorted(hit_known.items()):
         lines.append('KNOWN-FINDING: property=%s %s [%s] (observed %d times)' % (
             pid, known_keys[key].get('what', ''), key, n))
